@@ -19,7 +19,7 @@ func runC11(c *Ctx) {
 	c.ruleM1("M1-fresh-map", fns)
 	c.Min("M1-fresh-map", 21)
 	c.ruleM2("M2-flag-addResult-pairing", fns)
-	c.Min("M2-flag-addResult-pairing", 37)
+	c.Min("M2-flag-addResult-pairing", 46)
 	c11extra(c)
 }
 
